@@ -13,7 +13,8 @@ RULE = ("every 2-input <=2-gate circuit, the C01 aliasing family, and seeded ran
         "0..8 startpoints (flop pins, constants, cyclic ones, parity gates of fan-in >=3, encoder-like names) x "
         "assumption sets {none, on internal nodes, contradictory}; model_count and the DIMACS projected count are "
         "compared with brute-force enumeration; signal_probability for every node of acyclic blackbox-free "
-        "circuits; non-trivial = circuit has a gate")
+        "circuits; non-trivial = circuit has a gate"
+        "; plus: the template-name family of C01 and circuits with 10-11 startpoints whose projected count depends on every startpoint (DIMACS export only)")
 BOUND = "circuits <= 14 nodes, <= 9 free signals; assumptions over <= 3 nodes; 4/16 hash seeds"
 
 
